@@ -239,6 +239,35 @@ fn sql_ty(t: &str) -> &'static str {
     }
 }
 
+/// `null|notnull|pk` or `(opts o*)`: the column options as SQL text, in the order written.
+fn decl_options(d: &Sexp) -> String {
+    let word = |o: &str| match o { "null" => " null", "notnull" => " not null", "unique" => " unique", "pk" => " primary key", _ => "" };
+    match d {
+        Sexp::Atom(a) => (if a == "null" { "" } else { word(a) }).to_string(),
+        Sexp::List(l) => l[1..].iter().map(|o| word(o.as_atom().unwrap())).collect::<String>(),
+    }
+}
+
+/// `(ddl TY (opts o*))`: what CREATE TABLE catalogues for the column.
+fn run_ddl(rt: &tokio::runtime::Runtime, l: &[Sexp]) -> String {
+    let sql = format!("create table t(c0 {}{})", sql_ty(l[1].as_atom().unwrap()), decl_options(&l[2]));
+    let r = catch(|| {
+        rt.block_on(async {
+            let db = Database::new_in_memory();
+            db.run(&sql).await.map_err(|e| e.to_string())?;
+            let cat = db.verif_catalog();
+            let t = cat.get_table_by_name("t").ok_or("no table")?;
+            let c = t.get_column_by_id(0).ok_or("no column")?;
+            Ok::<_, String>(format!("ok nullable={} primary={}", c.is_nullable(), c.is_primary()))
+        })
+    });
+    match r {
+        Err(p) => format!("panic {}", p.chars().take(60).collect::<String>()),
+        Ok(Err(_)) => "err".into(),
+        Ok(Ok(s)) => s,
+    }
+}
+
 fn sql_val(v: &str) -> String {
     if v == "null" {
         return "NULL".into();
@@ -296,8 +325,7 @@ fn run_ins(rt: &tokio::runtime::Runtime, l: &[Sexp], workdir: &str, k: usize) ->
             .enumerate()
             .map(|(i, d)| {
                 let d = d.as_list().unwrap();
-                let nn = match d[1].as_atom().unwrap() { "notnull" => " not null", "pk" => " primary key", _ => "" };
-                format!("c{i} {}{}", sql_ty(d[0].as_atom().unwrap()), nn)
+                format!("c{i} {}{}", sql_ty(d[0].as_atom().unwrap()), decl_options(&d[1]))
             })
             .collect::<Vec<_>>()
             .join(", ")
@@ -526,6 +554,16 @@ fn gen_ins(r: &mut Rng) -> String {
     let decls: Vec<String> = tys
         .iter()
         .map(|t| {
+            if r.chance(2, 5) {
+                // column options as a list, any order, repeated / contradicting ones too
+                let k = 1 + r.below(3);
+                let mut os: Vec<&str> = vec![];
+                for _ in 0..k {
+                    let o = *r.pick(&["null", "notnull", "notnull", "unique", "pk"]);
+                    if o == "pk" && (pk_used || *t == "BOOLEAN") { os.push("unique"); } else { if o == "pk" { pk_used = true; } os.push(o); }
+                }
+                return format!("({t} (opts {}))", os.join(" "));
+            }
             let n = match r.below(5) {
                 0 | 1 => "notnull",
                 2 if !pk_used && *t != "BOOLEAN" => { pk_used = true; "pk" }
@@ -740,6 +778,13 @@ fn main() {
             let n: usize = args[2].parse().unwrap();
             let mut r = Rng::from_env();
             let mut out = String::new();
+            // every list of column options up to length 3 (a finite fold in the binder)
+            let opts = ["null", "notnull", "unique", "pk"];
+            let mut lists: Vec<Vec<&str>> = vec![vec![]];
+            for a in opts { lists.push(vec![a]); for b in opts { lists.push(vec![a, b]); for c in opts { lists.push(vec![a, b, c]); } } }
+            for l in &lists {
+                out += &format!("(ddl {} (opts {}))\n", r.pick(&["INT", "STRING", "BOOLEAN", "BIGINT"]), l.join(" "));
+            }
             for _ in 0..n {
                 let line = match r.below(22) {
                     0..=11 => { let d = 1 + r.below(4) as u32; format!("(type {})", gen_t(&mut r, d)) }
@@ -778,6 +823,7 @@ fn main() {
                         let mut e = RecExpr::default();
                         match catch(|| { add_p(&l[1], &mut e); e }) { Ok(e) => static_type(&e), Err(p) => format!("harness-error {p}") }
                     }
+                    "ddl" => run_ddl(&rt, l),
                     "ins" | "inscols" | "inssel" | "selcast" => {
                         let wd = args.get(3).cloned().or_else(|| std::env::var("C16_WORK").ok()).expect("workdir");
                         run_ins(&rt, l, &wd, k)
